@@ -41,7 +41,7 @@ def run(tier):
             {'label': 'rich-items', 'harness': HItem(pool=5, cap=4, max_list=3, rich=True, patterns=('plain', 'p-between', 'foreign')),
              'monitors': mon, 'opts': {'max_depth': 0}},
             {'label': 'mixed-all-classes-depth1', 'harness': HMixed(rich=True, meta_subsets=3, init_shapes='all'), 'monitors': mon,
-             'opts': {'max_depth': 1}},
+             'opts': {'max_depth': 1, 'max_states': 8000}},
         ]
     parts.append({'label': 'pretty-printed-running-orders', 'harness': HStory(pool=4, cap=3, max_list=2, rich=True, replace_variant=1, pretty_states=True,
                                                                                pretty_msgs=True, layouts=('between',)),
